@@ -9,8 +9,9 @@ Oracle = the description the archive was written from:
   C10  getnames()/list() give the names in stored order, each member's size, directory flag and stored CRC;
   C06  extractall() to memory returns exactly the bytes of every file member; extract(targets=...) returns exactly
        the requested ones; testzip() reports no damage;
-  C04  after one byte of a CRC-protected member is altered, extraction or testzip() reports it (never silently
-       returns the altered bytes as good).
+  C04  after one byte of a CRC-protected member is altered, extraction fails, testzip() does not report "no damage"
+       and - when the pack stream carries a CRC - test() does not certify the archive;
+  C10  needs_password() is False without and True with a supplied password (there is no encryption coder).
 quick: 400 archives; thorough: 8000.  Prints one JSON line; `replay <json-file>` re-runs one recorded description."""
 import io, json, os, random, struct, sys, time, zlib
 
@@ -131,6 +132,16 @@ def run_one(d):
         return ("C06", "opening / listing raised %s: %s" % (type(e).__name__, str(e)[:120]))
     if got_names != names:
         return ("C10", "getnames() %r, stored order %r" % (got_names, names))
+    # needs_password(): true exactly when an encryption coder is present (none here) or a password was supplied
+    try:
+        with py7zr.SevenZipFile(io.BytesIO(raw)) as z:
+            plain = z.needs_password()
+        with py7zr.SevenZipFile(io.BytesIO(raw), password="secret") as z:
+            given = z.needs_password()
+    except Exception as e:  # noqa
+        return ("C10", "needs_password raised %s: %s" % (type(e).__name__, str(e)[:100]))
+    if plain is not False or given is not True:
+        return ("C10", "needs_password() = %r without / %r with a supplied password on an archive without encryption coder" % (plain, given))
     count = {}
     for m, fi in zip(members, lst):
         if fi.filename != m["name"] or bool(fi.is_directory) != (m["kind"] == "dir"):
@@ -203,6 +214,23 @@ def run_one(d):
             pass
         if silent:
             return ("C04", "one byte of CRC-protected member %s altered: extractall() returned without any error" % name)
+        # the integrity tests never certify the damaged archive as good
+        try:
+            with py7zr.SevenZipFile(io.BytesIO(bytes(bad))) as z:
+                tz = z.testzip()
+        except Exception:  # noqa
+            tz = "raised"
+        if tz is None:
+            return ("C04", "one byte of CRC-protected member %s altered: testzip() reports no damage" % name)
+        folder = next(m["folder"] for m in members if m["name"] == name)
+        if d["pack_crc"] is not None and d["pack_crc"][folder] is not None:
+            try:
+                with py7zr.SevenZipFile(io.BytesIO(bytes(bad))) as z:
+                    t = z.test()
+            except Exception:  # noqa
+                t = "raised"
+            if t is True:
+                return ("C04", "one byte of pack stream %d (CRC stored in PackInfo) altered: test() certifies the archive" % folder)
     return None
 
 
